@@ -5,6 +5,7 @@
 import Gama.Props.C07Mirror
 import Gama.Props.C07MirrorSigma
 import Gama.Lemmas.C07MirrorLink
+import Gama.Lemmas.C07MirrorGlue
 namespace Gama.Props.C07MirrorLink
 open Gama Gama.Lin Gama.PE Gama.C07Mir Gama.C07Link Gama.Ls Gama.Ls.Net Gama.Cov.YSign
 attribute [local instance 2000] scalarOfField
@@ -29,7 +30,7 @@ theorem C07_row_sign_link [SqrtFn ℝ] (net : PE.Net ℝ) (np : NetProblem ℝ) 
     `Σ Pc = 1 ⇒ Σ' (D_s Pc D_s) = 1`: the weights `D_s P D_s` of the mirror theorem are the weights of the mirrored
     description).  Hypothesis `hdeg` as in `C07_mirror_same_course`. -/
 theorem C07_mirror_sigma_of_project_equations [SqrtFn ℝ] (hdeg : DegenInv) (net : PE.Net ℝ) (np np' : NetProblem ℝ)
-    (u u' : Unknowns ℝ) (hall : RegAll net)
+    (u u' : Unknowns ℝ) (hall : RegAll net) (hwfN : WfAll net)
     (hpe : projectEquations net = .ok (np, u)) (hpe' : projectEquations (mirNet net) = .ok (np', u'))
     (hwf : ∀ c ∈ u.net.clusters, c.cov.WF ∧ c.cov.dim = c.obs.length) :
     ∃ hm : np'.m = np.m, np'.m0 = np.m0 ∧ dimsN np' = dimsN np ∧ (dimsN np).sum = np.m ∧
@@ -37,8 +38,8 @@ theorem C07_mirror_sigma_of_project_equations [SqrtFn ℝ] (hdeg : DegenInv) (ne
         kSgn (((revisedObs u.net).map (·.kind)).getD s.val .distance) * Sigma np s t *
           kSgn (((revisedObs u.net).map (·.kind)).getD t.val .distance) := by
   obtain ⟨b, b', Pb, _, hm, _, _, _, hc, hc', _⟩ :=
-    Props.C07Mirror.C07_mirror_of_project_equations_partial hdeg net np np' u u' hall hpe hpe'
-  obtain ⟨hi, _, _, _⟩ := Props.C07Mirror.C07_mirror_same_course hdeg net np np' u u' hall hpe hpe'
+    Props.C07Mirror.C07_mirror_of_project_equations_partial hdeg net np np' u u' hall hwfN hpe hpe'
+  obtain ⟨hi, _, _, _⟩ := Props.C07Mirror.C07_mirror_same_course hdeg net np np' u u' hall hwfN hpe hpe'
   have h1 : np.clusters = (signedClusters u.net).map (·.2) := by rw [hc, clusters_signed]
   have h2 : np'.clusters = (signedClusters u.net).map C07Sig.conj := by rw [hc', clusters_conj]
   have hlen : (revisedObs u.net).length = np.m := Pb.m.symm
@@ -59,5 +60,62 @@ theorem C07_mirror_sigma_of_project_equations [SqrtFn ℝ] (hdeg : DegenInv) (ne
   · rw [pe_m0 _ _ _ hpe', pe_m0 _ _ _ hpe, hi]; rfl
   · intro s t
     rw [hS s t, hL2 s.val (by rw [hlen]; exact s.isLt), hL2 t.val (by rw [hlen]; exact t.isLt)]
+
+/-- **`DegenInv` is a theorem**: for every network with regular observations and well-formed cluster matrices, the
+    numeric half of `singular_coords` (`1 − |ab|/√(aa·bb) < 1e-12` on the x and y columns of a point in the HOMOGENISED
+    matrix) gives the same verdict in the inner call on the mirrored description as in the inner call on the original
+    (`A_homᵀ A_hom = Aᵀ P A`; under the mirror `D_t (Aᵀ P A) D_t`; `aa`, `bb` unchanged, `|ab|` unchanged) -/
+theorem C07_degen_inv : DegenInv := C07Glue.degenInv
+
+/-- **mirror, for what `project_equations()` hands over — FULL.**  `net` any network whose observations are regular at
+    the approximate coordinates (`RegAll`: no sight shorter than the cut-off — there the generated rows are not the closed
+    forms) and whose clusters carry well-formed band matrices of the dimension of their observation lists (`WfAll`: the
+    parser's guarantee); both calls return.  Then (any depth of the `singular_coords` recursion) both calls take the same
+    course, hand over systems with the same numbering, the same `min_x_`, `A' = D_s A D_t`, `b' = D_s b`, the conjugated
+    clusters (`Σ' = D_s Σ D_s`: `C07_mirror_sigma_of_project_equations`), and every least-squares solution of the one
+    is carried over to the other.  The one remaining visible hypothesis inside is `hnb`: an angular right-hand side
+    exactly at `+200 gon` (the closed end of the window `(−200, 200]`) is mapped to `+200 gon`, not to `−200 gon`
+    (`wrap_neg`), so `b' = D_s b` fails exactly there. -/
+theorem C07_mirror_of_project_equations (net : PE.Net ℝ) (np np' : NetProblem ℝ) (u u' : Unknowns ℝ)
+    (hall : RegAll net) (hwf : WfAll net)
+    (hpe : projectEquations net = .ok (np, u)) (hpe' : projectEquations (mirNet net) = .ok (np', u')) :
+    (u'.net = { mirNet u.net with idx := u.net.idx } ∧ u'.removed = u.removed ∧ np'.minx = np.minx ∧ RegAll u.net) ∧
+    ∃ b b' : PassOut ℝ, Pass np u b ∧ Pass np' u' b' ∧ np'.m = np.m ∧ np'.n = np.n ∧ np'.minx = np.minx ∧
+      b'.idx = b.idx ∧ np.clusters = npClusters u.net ∧ np'.clusters = npClusters (mirNet u.net) ∧
+      ∀ (hnb : ∀ i : Fin (revisedObs u.net).length,
+          (toRK (revisedObs u.net)[i].kind).angular = true → b.rhs.getD i.val 0 ≠ Lin.HALF)
+        (P : Matrix (Fin (revisedObs u.net).length) (Fin (revisedObs u.net).length) ℝ) (S : Finset (Fin b.idx.maxn))
+        (x : Fin b.idx.maxn → ℝ) (v : Fin (revisedObs u.net).length → ℝ) (rtr : ℝ)
+        (h : LS.IsLSSolution (C06FP.passMatrix b (revisedObs u.net).length)
+          (fun i : Fin (revisedObs u.net).length => b.rhs.getD i.val 0) P S x v rtr),
+        ∃ e : Fin b'.idx.maxn ≃ Fin b.idx.maxn, (∀ j, (e j).val = j.val) ∧
+          C06FP.passMatrix b' (revisedObs u.net).length =
+            (Matrix.diagonal (fun i : Fin (revisedObs u.net).length => kSgn (revisedObs u.net)[i].kind) *
+              C06FP.passMatrix b (revisedObs u.net).length *
+              Matrix.diagonal (fun j : Fin b.idx.maxn => colSgn b.idx j.val)).submatrix id e ∧
+          (fun i : Fin (revisedObs u.net).length => b'.rhs.getD i.val 0) =
+            Matrix.mulVec (Matrix.diagonal (fun i : Fin (revisedObs u.net).length => kSgn (revisedObs u.net)[i].kind))
+              (fun i : Fin (revisedObs u.net).length => b.rhs.getD i.val 0) ∧
+          LS.IsLSSolution (C06FP.passMatrix b' (revisedObs u.net).length)
+            (fun i : Fin (revisedObs u.net).length => b'.rhs.getD i.val 0)
+            (Matrix.diagonal (fun i : Fin (revisedObs u.net).length => kSgn (revisedObs u.net)[i].kind) * P *
+              Matrix.diagonal (fun i : Fin (revisedObs u.net).length => kSgn (revisedObs u.net)[i].kind))
+            (S.map e.symm.toEmbedding)
+            ((Matrix.mulVec (Matrix.diagonal (fun j : Fin b.idx.maxn => colSgn b.idx j.val)) x) ∘ e)
+            (Matrix.mulVec (Matrix.diagonal (fun i : Fin (revisedObs u.net).length => kSgn (revisedObs u.net)[i].kind)) v)
+            rtr :=
+  ⟨Props.C07Mirror.C07_mirror_same_course C07Glue.degenInv net np np' u u' hall hwf hpe hpe',
+   Props.C07Mirror.C07_mirror_of_project_equations_partial C07Glue.degenInv net np np' u u' hall hwf hpe hpe'⟩
+
+/-- **`Σ' = D_s Σ D_s` at the outputs, without `hdeg`** -/
+theorem C07_mirror_sigma_of_project_equations_full [SqrtFn ℝ] (net : PE.Net ℝ) (np np' : NetProblem ℝ)
+    (u u' : Unknowns ℝ) (hall : RegAll net) (hwfN : WfAll net)
+    (hpe : projectEquations net = .ok (np, u)) (hpe' : projectEquations (mirNet net) = .ok (np', u'))
+    (hwf : ∀ c ∈ u.net.clusters, c.cov.WF ∧ c.cov.dim = c.obs.length) :
+    ∃ hm : np'.m = np.m, np'.m0 = np.m0 ∧ dimsN np' = dimsN np ∧ (dimsN np).sum = np.m ∧
+      ∀ s t : Fin np.m, Sigma np' (Fin.cast hm.symm s) (Fin.cast hm.symm t) =
+        kSgn (((revisedObs u.net).map (·.kind)).getD s.val .distance) * Sigma np s t *
+          kSgn (((revisedObs u.net).map (·.kind)).getD t.val .distance) :=
+  C07_mirror_sigma_of_project_equations C07Glue.degenInv net np np' u u' hall hwfN hpe hpe' hwf
 
 end Gama.Props.C07MirrorLink
